@@ -326,7 +326,19 @@ def family_streams(sc, out, tier, rng, replay_case=None):
                                            "signature_text": f"family-{fam}-edit | {case['edit']}"})
                     break
             # ground truth for match_mcp: the last *-mcp line, in layer order, whose glob matches
-            lines = [(l.split(None, 1)[0].lower(), l) for layer, fs in zip(layers, fams) for l, f in zip(layer, fs) if f == "mcp"]
+            # (the family of a line is read off its directive WORD here, not asked of the parser: a parser that files a
+            # shell directive under the MCP lists must not be believed)
+            def textual(l):
+                w = l.split(None, 1)[0].lower() if l.split() else ""
+                return "mcp" if w in ("allow-mcp", "ask-mcp", "deny-mcp", "after-mcp") else "shell" if w in (
+                    "allow", "ask", "deny", "allow-redirect", "ask-redirect", "deny-redirect", "after", "alias") else None
+            for layer, fs in zip(layers, fams):
+                for l, f in zip(layer, fs):
+                    if f in ("mcp", "shell") and textual(l) != f:
+                        out.violations.append({"kind": "family", "case": case, "what": f"the line {l!r} is a {textual(l)} directive but parse_config files it under the {f} lists",
+                                               "signature_text": "family-parse | wrong-list"})
+                        return
+            lines = [(l.split(None, 1)[0].lower(), l) for layer, fs in zip(layers, fams) for l, f in zip(layer, fs) if f == "mcp" and textual(l) == "mcp"]
             for t, got, _ in mcp_answers(a):
                 hits = [d for d, l in lines if d != "after-mcp" and fnmatch.fnmatch(t, C.parse_config(l).mcp_rules[0].pattern)]
                 want = hits[-1].split("-")[0] if hits else None
